@@ -276,6 +276,9 @@ def judge_case(case, meta):
     open_tx = {}       # (owner, qtype) -> tx
     ids_replied = set()
     last_tx = {}
+    nstage = {}
+    last_probe_t = None
+    wait_end_t = None
     starved = set()
     wait_done = None
     nontrivial = False
@@ -339,7 +342,7 @@ def judge_case(case, meta):
                 if owner is None:
                     viol("C34:unknown-query", "query for %r" % W.labels_text(labels)); continue
                 if owner == "probe":
-                    st("probe_queries"); continue
+                    st("probe_queries"); last_probe_t = t; continue
                 ro = reqs.get(owner)
                 if ro is not None and (ro.cbs or ro.t_cancel is not None):
                     st("queries_seen_after_request_end")     # written to a TCP buffer / socket before the request ended
@@ -355,7 +358,8 @@ def judge_case(case, meta):
                     # this transaction at any moment (evdns fails a request on a reply whose question does not match), so the
                     # lifetime of this transaction cannot be inferred from the wire
                     cur = dict(owner=owner, qt=qt, id=d.id, start=t, end=None, name=nm, n=0, sight=[], tainted=d.id in ids_replied,
-                               replied=False)
+                               replied=False, stage=nstage.get(key, 0))
+                    nstage[key] = nstage.get(key, 0) + 1
                     open_tx[key] = cur; txs.append(cur)
                     last_tx[owner] = cur
                 cur["n"] += 1
@@ -378,6 +382,7 @@ def judge_case(case, meta):
                         open_tx.pop(o)["end"] = t
         elif k == "WAIT":
             wait_done = ev[3] == "1"
+            wait_end_t = int(ev[1])
             if not wait_done and free_t is None:
                 st("wait_expired")
                 for r in reqs.values():
@@ -385,6 +390,9 @@ def judge_case(case, meta):
                         starved.add(r.rid)      # still silent after the whole virtual-time bound
         elif k == "STUCK":
             viol("C34:loop-never-idle", "the event loop did not reach an idle point within 5000 non-blocking passes at t=%s" % ev[1])
+    stuck_root = meta["inflight"] <= 3 and any(last_tx.get(x) is not None and last_tx[x]["replied"] for x in starved)
+    probes_hog = (meta["inflight"] <= 3 and last_probe_t is not None and wait_end_t is not None
+                  and last_probe_t > wait_end_t - int(6e6 + 2 * meta["attempts"] * meta["timeout"] * 1e6))
     # --- exactly once
     for rid, r in sorted(reqs.items()):
         if r.ret == "skipped" or r.ret is None:
@@ -408,7 +416,15 @@ def judge_case(case, meta):
             if rid in starved:
                 lt = last_tx.get(rid)
                 sub = ""
-                if lt is not None and lt["replied"] and meta["inflight"] <= 3:
+                if probes_hog and (lt is None or lt["replied"]):
+                    # nameserver probes are forced into the in-flight table but count against max-inflight: with a tiny table and
+                    # probes overlapping until the end of the run the waiting queue is never served
+                    sub = ":starved-by-probes-in-flight"
+                elif lt is None and stuck_root:
+                    # never transmitted at all: it waits behind the stuck follow-up request (nothing is in flight any more,
+                    # so nothing ever pumps the waiting queue again)
+                    sub = ":continuation-stuck-in-waiting-queue"
+                elif lt is not None and lt["replied"] and meta["inflight"] <= 3:
                     # the last thing seen for this request is a reply to its query (error -> next search name, TC -> TCP), the
                     # follow-up query never appeared and the in-flight table is tiny: the follow-up sits in the waiting queue
                     sub = ":continuation-stuck-in-waiting-queue"
@@ -491,7 +507,9 @@ def judge_case(case, meta):
                     continue
                 hit = [(wa, wb) for wa in windows(a) for wb in windows(b) if max(wa[0], wb[0]) < min(wa[1], wb[1])]
                 if hit:
-                    viol("C34:transaction-id-shared", "id 0x%04x in flight for request %s (type %d, sent at %s) and request %s (type %d, sent at %s) at the same time" %
+                    cont = (a["stage"] > 0 or b["stage"] > 0) and hit[0][0][0] == hit[0][1][0]
+                    # (a follow-up request - TCP retry, next search name - gets its id when it is built and enters the table later)
+                    viol("C34:transaction-id-shared" + (":follow-up-request-id-picked-before-insert" if cont else ""), "id 0x%04x in flight for request %s (type %d, sent at %s) and request %s (type %d, sent at %s) at the same time" %
                          (idv, a["owner"], a["qt"], a["sight"][:4], b["owner"], b["qt"], b["sight"][:4]))
     st("transactions", len(txs))
     st("transaction_ids_reused_over_time", sum(1 for v in byid.values() if len(v) > 1))
